@@ -40,8 +40,52 @@ func (p Panic) Error() string { return "runtime panic on a reachable path: " + p
 // initialiser (var ErrX = errors.New(…)); "" for errors created while a function runs.
 type ErrVal struct {
 	NonNil Node
-	Tag    string // "" fresh error object, "?" identity depends on the path, else the sentinel's id
-	Cause  string // for wrapped errors: the Tag of the wrapped error (errors.Cause)
+	Tag    string // "" fresh error object, "?" identity depends on the path (see TagG), else the sentinel's id
+	Cause  string // for wrapped errors: the Tag of the wrapped error (errors.Cause); "?" see CauseG
+	// TagG / CauseG (with Tag resp. Cause == "?"): sentinel id -> the condition under which this value is that
+	// sentinel (resp. wraps it); on all other non-nil paths it is a fresh error object
+	TagG, CauseG map[string]Node
+}
+
+// restrictErr: the error that is ev under c and nil otherwise (identity and cause are kept).
+func (in *Interp) restrictErr(ev *ErrVal, c Node) *ErrVal {
+	out := &ErrVal{NonNil: in.D.M.And(c, ev.NonNil), Tag: ev.Tag, Cause: ev.Cause}
+	if ev.TagG != nil {
+		out.TagG = map[string]Node{}
+		for t, n := range ev.TagG {
+			out.TagG[t] = in.D.M.And(c, n)
+		}
+	}
+	if ev.CauseG != nil {
+		out.CauseG = map[string]Node{}
+		for t, n := range ev.CauseG {
+			out.CauseG[t] = in.D.M.And(c, n)
+		}
+	}
+	return out
+}
+
+// errTagConds: sentinel id -> condition under which ev is that sentinel.
+func errTagConds(ev *ErrVal) map[string]Node {
+	if ev.Tag == "?" {
+		return ev.TagG
+	}
+	if ev.Tag != "" {
+		return map[string]Node{ev.Tag: ev.NonNil}
+	}
+	return nil
+}
+
+// errCauseConds: sentinel id -> condition under which errors.Cause(ev) is that sentinel (an error that wraps nothing
+// is its own cause).
+func errCauseConds(ev *ErrVal) map[string]Node {
+	if ev.Cause == "?" {
+		return ev.CauseG
+	}
+	if ev.Cause != "" {
+		return map[string]Node{ev.Cause: ev.NonNil}
+	}
+	return errTagConds(ev)
 }
 type NilVal struct{}
 type StrVal struct {
@@ -271,6 +315,15 @@ func (in *Interp) ite(c Node, a, b Value) Value {
 	if c == False {
 		return b
 	}
+	// decided on every path that is executing: the other alternative belongs to dead paths only
+	if in.live != True && in.live != False {
+		if in.D.M.And(in.live, c) == False {
+			return b
+		}
+		if in.D.M.And(in.live, in.D.M.Not(c)) == False {
+			return a
+		}
+	}
 	if a == nil {
 		return b
 	}
@@ -300,7 +353,7 @@ func (in *Interp) ite(c Node, a, b Value) Value {
 		case *ErrVal:
 			pick := func(a, b string) string {
 				switch {
-				case a == b:
+				case a == b && a != "?":
 					return a
 				case x.NonNil == False:
 					return b
@@ -309,12 +362,43 @@ func (in *Interp) ite(c Node, a, b Value) Value {
 				}
 				return "?"
 			}
-			return &ErrVal{NonNil: in.D.M.ITE(c, x.NonNil, y.NonNil), Tag: pick(x.Tag, y.Tag), Cause: pick(x.Cause, y.Cause)}
+			out := &ErrVal{NonNil: in.D.M.ITE(c, x.NonNil, y.NonNil), Tag: pick(x.Tag, y.Tag), Cause: pick(x.Cause, y.Cause)}
+			guarded := func(fx, fy map[string]Node) map[string]Node {
+				g := map[string]Node{}
+				for t, cx := range fx {
+					g[t] = in.D.M.And(c, cx)
+				}
+				for t, cy := range fy {
+					g[t] = in.D.M.Or(g[t], in.D.M.And(in.D.M.Not(c), cy))
+				}
+				return g
+			}
+			if out.Tag == "?" {
+				out.TagG = guarded(errTagConds(x), errTagConds(y))
+			} else if x.NonNil == False && y.Tag == "?" {
+				out.TagG = y.TagG
+			} else if y.NonNil == False && x.Tag == "?" {
+				out.TagG = x.TagG
+			}
+			if out.Cause == "?" {
+				out.CauseG = guarded(errCauseConds(x), errCauseConds(y))
+				// a side that wraps nothing contributes its own identity, which errCauseConds already returned
+			} else if x.NonNil == False && y.Cause == "?" {
+				out.CauseG = y.CauseG
+			} else if y.NonNil == False && x.Cause == "?" {
+				out.CauseG = x.CauseG
+			}
+			// one side wraps, the other does not: the cause must still be tracked per path
+			if out.Cause != "?" && (x.Cause == "") != (y.Cause == "") && x.NonNil != False && y.NonNil != False {
+				out.Cause = "?"
+				out.CauseG = guarded(errCauseConds(x), errCauseConds(y))
+			}
+			return out
 		case NilVal:
-			return &ErrVal{NonNil: in.D.M.And(c, x.NonNil)}
+			return in.restrictErr(x, c)
 		case *Iface:
 			if _, isNil := y.Dyn.(NilVal); isNil {
-				return &ErrVal{NonNil: in.D.M.And(c, x.NonNil)}
+				return in.restrictErr(x, c)
 			}
 		}
 	case NilVal:
@@ -322,7 +406,7 @@ func (in *Interp) ite(c Node, a, b Value) Value {
 		case NilVal:
 			return a
 		case *ErrVal:
-			return &ErrVal{NonNil: in.D.M.And(in.D.M.Not(c), y.NonNil)}
+			return in.restrictErr(y, in.D.M.Not(c))
 		case *Slice:
 			if y.Len() == 0 {
 				return y
@@ -389,7 +473,7 @@ func (in *Interp) ite(c Node, a, b Value) Value {
 		}
 		if y, ok := b.(*ErrVal); ok {
 			if _, xn := x.Dyn.(NilVal); xn {
-				return &ErrVal{NonNil: in.D.M.And(in.D.M.Not(c), y.NonNil)}
+				return in.restrictErr(y, in.D.M.Not(c))
 			}
 		}
 		panic(SplitRequest{Cond: c, Why: "interface dynamic type depends on a symbolic condition"})
